@@ -44,6 +44,10 @@ pub struct Plan {
     /// scheduler (switches at the H5 points, at the lock-aware points inside Call, and whenever a caller is pending)
     #[serde(default)]
     pub mt: bool,
+    /// a single flight joined by this many callers at once (sizes around 2^16, where a 16-bit counter wraps); the
+    /// `callers` list is ignored
+    #[serde(default)]
+    pub herd: Option<u32>,
 }
 
 #[derive(Default)]
@@ -155,8 +159,14 @@ impl Engine for FlightEngine {
             yield_mode: rng.weighted(&[1, 3, 4]) as u32,
             yield_p: *rng.pick(&[2u32, 4, 8, 12, 16]),
             mt: rng.chance(1, 3),
+            herd: None,
         };
         let mut p = p;
+        if rng.chance(1, 40_000) {
+            p.mt = false;
+            p.herd = Some(*rng.pick(&[65_535u32, 65_536, 65_536, 65_537, 131_072]));
+            return serde_json::to_value(p).unwrap();
+        }
         if p.mt && p.callers.len() > 4 {
             p.callers.truncate(4);
         }
@@ -179,6 +189,10 @@ impl Engine for FlightEngine {
     fn execute(&self, plan: &Value, _focus: &str) -> RunReport {
         let p: Plan = serde_json::from_value(plan.clone()).expect("flight plan");
         let mut rep = RunReport::default();
+        if let Some(h) = p.herd {
+            run_herd(h as usize, &mut rep);
+            return rep;
+        }
         let n = p.callers.len();
         let log = Arc::new(Mutex::new(Log {
             task_start: vec![None; n],
@@ -207,7 +221,7 @@ impl Engine for FlightEngine {
     }
 
     fn rule(&self, _focus: &str) -> String {
-        "Each run: 1-8 callers over 1-3 keys with seeded arrival times and task durations, tasks that succeed with a unique token, fail with a unique message, or panic. Two execution modes: (single-threaded) a paused-clock current-thread runtime where at each of the five guarded yield points inside Group::work the schedule stream decides whether the caller yields or sleeps; (multi-threaded, one run in three) every caller is an OS thread with its own runtime under the cooperative one-thread-at-a-time scheduler, which switches at those yield points, at lock-aware points inside Call::{get_future,complete} that are live only where the result lock is not held, and whenever a caller's future is pending; in one multi-threaded run in three one caller's runtime is shut down at the 1st..4th time its call is found pending (the call and, for an owner, its spawned task are dropped: every other caller must still return, with the dropped-owner notification at worst); a run in which every remaining caller stays pending is a hang; in one single-threaded run in five one caller's task is aborted around its call (no hook-only yields in such runs): the others must still get the flight's real outcome, since the spawned owner task lives on. Non-trivial: at least one caller received another caller's outcome (a waiter overlapped a flight) and at least one schedule decision fired. Distinct: hash of the per-caller (invoke, return, task start) event numbers, key and outcome kind.".into()
+        "Each run: 1-8 callers over 1-3 keys with seeded arrival times and task durations, tasks that succeed with a unique token, fail with a unique message, or panic. Two execution modes: (single-threaded) a paused-clock current-thread runtime where at each of the five guarded yield points inside Group::work the schedule stream decides whether the caller yields or sleeps; (multi-threaded, one run in three) every caller is an OS thread with its own runtime under the cooperative one-thread-at-a-time scheduler, which switches at those yield points, at lock-aware points inside Call::{get_future,complete} that are live only where the result lock is not held, and whenever a caller's future is pending; in one multi-threaded run in three one caller's runtime is shut down at the 1st..4th time its call is found pending (the call and, for an owner, its spawned task are dropped: every other caller must still return, with the dropped-owner notification at worst); a run in which every remaining caller stays pending is a hang; one run in 40 000 is a single flight joined by 65 535 … 131 072 callers at once; in one single-threaded run in five one caller's task is aborted around its call (no hook-only yields in such runs): the others must still get the flight's real outcome, since the spawned owner task lives on. Non-trivial: at least one caller received another caller's outcome (a waiter overlapped a flight) and at least one schedule decision fired. Distinct: hash of the per-caller (invoke, return, task start) event numbers, key and outcome kind.".into()
     }
     fn real_vs_stub(&self) -> Value {
         json!({"real": ["utils::singleflight::{Group, Call, OwnerTask}", "tokio Mutex/Notify/JoinHandle, parking_lot RwLock"], "simulated": ["arrival times, task durations (paused clock)", "scheduling between lock sections (H5 yield points)", "multi-threaded mode: OS-thread interleaving at H5 points, lock-aware points and pending polls", "shutdown of a caller's runtime mid-call"], "limit": "interleavings at lock-section granularity plus wherever a lock-aware point finds the result lock free; not at atomic-instruction granularity"})
@@ -215,6 +229,62 @@ impl Engine for FlightEngine {
     fn assumptions(&self, _focus: &str) -> Vec<String> {
         vec!["Synchronous (parking_lot) locks are acquired without a timeout: a schedule in which a thread runs while another is parked inside a held synchronous lock is not explored (it would deadlock the shipped code under the cooperative scheduler), so a failure that needs a wall-clock lock timeout is out of reach (DESIGN §10, seeded change C20-5).".into(), "tokio's primitives are trusted; multi-threaded interleavings are emulated by yields/sleeps at the guarded points between lock sections and, in multi-threaded mode, by a cooperative thread scheduler (DESIGN §7 C20).".into()]
     }
+}
+
+/// One flight joined by `n` callers at once: one task runs, every caller gets its value, nobody waits forever.
+fn run_herd(n: usize, rep: &mut RunReport) {
+    let rt = tokio::runtime::Builder::new_current_thread().enable_all().start_paused(true).build().unwrap();
+    let ran = Arc::new(std::sync::atomic::AtomicU64::new(0));
+    let (hung, got_value, owners) = rt.block_on(async {
+        let group: Arc<Group<u64, String>> = Arc::new(Group::new());
+        let mut hs = Vec::with_capacity(n);
+        for _ in 0..n {
+            let g = group.clone();
+            let ran = ran.clone();
+            hs.push(tokio::spawn(async move {
+                let fut = async move {
+                    ran.fetch_add(1, std::sync::atomic::Ordering::SeqCst);
+                    tokio::time::sleep(Duration::from_millis(10)).await;
+                    Ok::<u64, String>(7)
+                };
+                let (res, owner) = g.work("herd", fut).await;
+                (matches!(res, Ok(7)), owner)
+            }));
+        }
+        let all = async {
+            let mut ok = 0usize;
+            let mut owners = 0usize;
+            for h in hs {
+                if let Ok((v, o)) = h.await {
+                    ok += v as usize;
+                    owners += o as usize;
+                }
+            }
+            (ok, owners)
+        };
+        match tokio::time::timeout(Duration::from_secs(365 * 24 * 3600), all).await {
+            Ok((ok, owners)) => (false, ok, owners),
+            Err(_) => (true, 0, 0),
+        }
+    });
+    drop(rt);
+    let _ = take_last_panic();
+    if hung {
+        rep.violate("C20.e", "caller-never-returned", format!("a flight joined by {n} callers at once never completed for some of them"));
+    } else {
+        if got_value != n {
+            rep.violate("C20.b", "herd-value", format!("{got_value} of {n} callers of one flight received the task's value"));
+        }
+        if owners != 1 || ran.load(std::sync::atomic::Ordering::SeqCst) != 1 {
+            rep.violate("C20.a", "herd-owner", format!("{owners} owners and {} task executions for one flight of {n} callers", ran.load(std::sync::atomic::Ordering::SeqCst)));
+        }
+    }
+    rep.count("probe:flight_joined_by_2^16_callers_or_more", (n >= 65_536) as u64);
+    rep.count("callers", n as u64);
+    rep.count("flights", 1);
+    rep.nontrivial = true;
+    rep.signature = mix(&[0x4e2d, n as u64]);
+    rep.sample = Some(json!({"herd": n}));
 }
 
 fn run_st(p: &Plan, log: Arc<Mutex<Log>>) -> (bool, u64) {
